@@ -326,9 +326,20 @@ func nameOf(h common.Uint256) string {
 
 // ---------------------------------------------------------------------------------------------
 
+var scratchDir string
+
+// fatal is an engine error that first removes the scratch directory.
+func fatal(format string, a ...interface{}) {
+	if scratchDir != "" {
+		os.RemoveAll(scratchDir)
+	}
+	evid.Fatalf(format, a...)
+}
+
 func main() {
 	r := evid.Start("C34", "model_checking")
 	scr := evid.Scratch("c34")
+	scratchDir = scr
 	defer os.RemoveAll(scr)
 	hx.QuietLogs(scr)
 	setupFixture(scr, r.Thorough() || r.Replay != "")
